@@ -47,3 +47,10 @@ CORPUS += [
     M("apply-rounds-target-temperature", "msmart/device/AC/device.py", "        cmd.target_temperature = or_default(self._target_temperature, 25)",
       "        cmd.target_temperature = float(round(or_default(self._target_temperature, 25)))"),
 ]
+# round 11 (C20.t4): a toggle whose reply is lost in reassembly is retransmitted - and a toggle is not idempotent
+CORPUS += [
+    M("v3-no-marker-clears-buffer", "msmart/lan.py", """                    "Peer %s: No start of packet found. Buffer: %s", self.peer, self._buffer.hex())
+                return""", """                    "Peer %s: No start of packet found. Buffer: %s", self.peer, self._buffer.hex())
+                self._buffer.clear()
+                return"""),
+]
